@@ -251,6 +251,7 @@ pub(crate) trait CKKSMulDefault<BE: Backend> {
         Self: GLWEMulPlain<BE>,
         Scratch<BE>: ScratchAvailable + ScratchTakeCore<BE>,
     {
+        crate::ensure_base2k_match("ckks_mul_pt_vec_znx_into", a.base2k().as_usize(), pt_znx.base2k().as_usize())?;
         let (res_log_budget, res_log_delta, cnv_offset) = get_mul_pt_params(dst, a, pt_znx)?;
         self.glwe_mul_plain(
             cnv_offset,
@@ -276,6 +277,7 @@ pub(crate) trait CKKSMulDefault<BE: Backend> {
         Self: GLWEMulPlain<BE>,
         Scratch<BE>: ScratchAvailable + ScratchTakeCore<BE>,
     {
+        crate::ensure_base2k_match("ckks_mul_pt_vec_znx_assign", dst.base2k().as_usize(), pt_znx.base2k().as_usize())?;
         let (res_log_budget, res_log_delta, cnv_offset) = get_mul_pt_params(dst, dst, pt_znx)?;
         let dst_effective_k = dst.effective_k();
 
